@@ -15,7 +15,7 @@ import (
 func init() {
 	register(&PropRules{
 		ID:      "C18",
-		Explain: "Configuration loading and reload — structural part: (C18.1) strict decoding: KnownFields(true) is called on the decoder before Decode, the decoded file is the configfile parameter and a decode error is returned; (C18.2) validation guards: fromConfig returns nil only under BaseDir != \"\", and every loop iteration that registers a parameter set has ID != 0, exactly one algorithm block, and the hasher constructor's err == nil; after the loop Default == 0 is accepted only with no sets and Default != 0 only if that set exists; (C18.3) accepted ⇒ usable: every parameter the KDF panics on (guards read from the dependency's SSA: argon2 time<1, threads<1; plus the hand-derived keyLen<1) is excluded by the hasher constructor on every accepting path, and hashers are constructed only by their constructors; (C18.4) reload is all-or-nothing: s.dir is replaced only under NewDirFromConfig(s.configfile) err==nil ∧ newdir.Check()==nil and by that very object; the fields of a Dir are written only while it is being constructed (NewDir, NewDirFromConfig, fromConfig).",
+		Explain: "Configuration loading and reload — structural part: (C18.1) strict decoding: KnownFields(true) is called on the decoder before Decode, the decoded file is the configfile parameter and a decode error is returned; (C18.2) validation guards: fromConfig returns nil only under BaseDir != \"\", and every loop iteration that registers a parameter set has ID != 0, exactly one algorithm block, and the hasher constructor's err == nil; after the loop Default == 0 is accepted only with no sets and Default != 0 only if that set exists; (C18.3) accepted ⇒ usable: every parameter the KDF panics on (guards read from the dependency's SSA: argon2 time<1, threads<1; plus the hand-derived keyLen<1) is excluded by the hasher constructor on every accepting path, and hashers are constructed only by their constructors; (C18.4) reload is all-or-nothing: s.dir is replaced only under NewDirFromConfig(s.configfile) err==nil ∧ newdir.Check()==nil and by that very object; the fields of a Dir are written only while it is being constructed (NewDir, NewDirFromConfig, fromConfig). Round 3 (C18.1): no type below the decoded root has an UnmarshalYAML that re-decodes through (*yaml.Node).Decode (fresh decoder, KnownFields lost), and no inline map.",
 		Undec:   []string{"exactness over all YAML documents (the decoder itself is trusted)", "memory exhaustion for huge cost/memory values", "signal delivery and in-flight requests at run time (the swap being inside the dispatcher is C11.4)"},
 		Run:     runC18,
 		Floors:  map[string]int{"C18.1": 1, "C18.2": 3, "C18.3": 4, "C18.4": 2},
